@@ -2,6 +2,7 @@ package eng
 
 import (
 	"bufio"
+	"sort"
 	"fmt"
 	"io"
 	"os/exec"
@@ -109,46 +110,40 @@ func ref(t *Term) string {
 	return "n" + strconv.Itoa(t.ID)
 }
 
-// define emits definitions for t and everything below it (iteratively).
-func (s *Solver) define(t *Term) {
-	if t.Op == OConst || s.defined[t.ID] {
-		return
-	}
-	type fr struct {
-		t *Term
-		i int
-	}
-	stack := []fr{{t, 0}}
+// emitCone sends definitions for every term reachable from roots (children
+// first; term IDs are topologically ordered by construction).
+func (s *Solver) emitCone(roots []*Term) {
+	seen := map[int]bool{}
+	var list []*Term
+	stack := append([]*Term(nil), roots...)
 	for len(stack) > 0 {
-		f := &stack[len(stack)-1]
-		if f.t.Op == OConst || s.defined[f.t.ID] {
-			stack = stack[:len(stack)-1]
-			continue
-		}
-		if f.i < len(f.t.Args) {
-			a := f.t.Args[f.i]
-			f.i++
-			if a.Op != OConst && !s.defined[a.ID] {
-				stack = append(stack, fr{a, 0})
-			}
-			continue
-		}
-		s.emit(f.t)
-		s.defined[f.t.ID] = true
-		if s.depth > 0 {
-			s.pending = append(s.pending, f.t)
-		}
+		t := stack[len(stack)-1]
 		stack = stack[:len(stack)-1]
+		if t.Op == OConst || seen[t.ID] {
+			continue
+		}
+		seen[t.ID] = true
+		list = append(list, t)
+		stack = append(stack, t.Args...)
 	}
+	sort.Slice(list, func(i, j int) bool { return list[i].ID < list[j].ID })
+	s.defined = seen
+	s.funs = map[string]bool{}
+	var sb strings.Builder
+	for _, t := range list {
+		s.emitTo(&sb, t)
+		if sb.Len() > 1<<16 {
+			s.send(sb.String())
+			sb.Reset()
+		}
+	}
+	s.send(sb.String())
 }
 
-func (s *Solver) emit(t *Term) {
-	b := &s.buf
-	b.Reset()
+func (s *Solver) emitTo(b *strings.Builder, t *Term) {
 	switch t.Op {
 	case OVar:
 		fmt.Fprintf(b, "(declare-const n%d %s)\n", t.ID, sortStr(t.W))
-		s.send(b.String())
 		return
 	case OApp:
 		if !s.funs[t.Name] {
@@ -158,7 +153,7 @@ func (s *Solver) emit(t *Term) {
 			for _, w := range fd.Args {
 				as = append(as, sortStr(w))
 			}
-			s.send(fmt.Sprintf("(declare-fun %s (%s) %s)\n", t.Name, strings.Join(as, " "), sortStr(fd.Ret)))
+			fmt.Fprintf(b, "(declare-fun %s (%s) %s)\n", t.Name, strings.Join(as, " "), sortStr(fd.Ret))
 		}
 	}
 	fmt.Fprintf(b, "(define-fun n%d () %s ", t.ID, sortStr(t.W))
@@ -187,39 +182,35 @@ func (s *Solver) emit(t *Term) {
 		b.WriteString(")")
 	}
 	b.WriteString(")\n")
-	s.send(b.String())
 }
 
-func (s *Solver) Push() {
-	s.send("(push 1)\n")
-	s.depth++
-}
-
-func (s *Solver) Pop() {
-	s.send("(pop 1)\n")
-	s.depth--
-	if s.depth == 0 && len(s.pending) > 0 {
-		// definitions made inside the scope were dropped by the solver
-		p := s.pending
-		s.pending = nil
-		for _, t := range p {
-			delete(s.defined, t.ID)
-		}
-		// function declarations made inside the scope are gone as well
-		for _, t := range p {
-			if t.Op == OApp {
-				delete(s.funs, t.Name)
-			}
+// Query decides the conjunction of asserts in a fresh (non-incremental)
+// solver context: z3's incremental core is orders of magnitude slower on these
+// QF_UFBV formulas than its tactic-based solver, so every query is
+// (reset) + cone of influence + one check-sat inside one long-lived process.
+func (s *Solver) Query(asserts []*Term) (Result, string) {
+	for _, a := range asserts {
+		if a.IsFalse() {
+			s.Queries++
+			return Unsat, "trivial"
 		}
 	}
-}
-
-func (s *Solver) Assert(t *Term) {
-	if t.IsTrue() {
-		return
+	if s.Name == "cvc5" {
+		s.send(fmt.Sprintf("(reset)\n(set-option :produce-models true)\n(set-option :tlimit-per %d)\n(set-logic QF_UFBV)\n", s.TimeoutMs))
+	} else {
+		// (reset) also resets the command-line timeout: set it again
+		s.send(fmt.Sprintf("(reset)\n(set-option :produce-models true)\n(set-option :timeout %d)\n", s.TimeoutMs))
 	}
-	s.define(t)
-	s.send("(assert " + ref(t) + ")\n")
+	s.emitCone(asserts)
+	var sb strings.Builder
+	for _, a := range asserts {
+		if a.IsTrue() {
+			continue
+		}
+		sb.WriteString("(assert " + ref(a) + ")\n")
+	}
+	s.send(sb.String())
+	return s.Check()
 }
 
 type Result int
